@@ -45,6 +45,118 @@ def account_comparisons(ctx, f):
     return out
 
 
+def closure_args(g, t):
+    """Closure ids constructed in g and passed (by value) as arguments of call t."""
+    out = []
+    for a in t["a"]:
+        p = vf.op_place(a)
+        if not p or p[1]:
+            continue
+        for bb in g.bbs:
+            for s in bb["s"]:
+                if s["k"] == "a" and s["d"] == [p[0], []] and s["r"]["k"] == "agg" and s["r"].get("ak") == "closure":
+                    out.append(s["r"]["adt"])
+    return out
+
+
+def iter_chains(g):
+    """For every iter()/tx_log_iter() call site in g: the closures attached to the iterator
+    adaptors applied to it (followed through filter/map/collect/into_iter chains) and
+    whether the records end in a `for` loop of g itself."""
+    res = {}
+    calls = list(g.calls())
+
+    def origin(o, depth=0):
+        out = set()
+        for x in vf.producers(g, o):
+            if x[0] == "call":
+                name, b = x[1], x[2]
+                if name in ITER_FNS:
+                    out.add(b)
+                elif depth < 16 and (name.startswith(("core::iter::", "core::slice::", "alloc::vec::", "alloc::slice::")) or "IntoIterator" in name or name.endswith(("Deref::deref", "DerefMut::deref_mut"))):
+                    t = g.bbs[b]["t"]
+                    if t["a"]:
+                        out |= origin(t["a"][0], depth + 1)
+        return out
+
+    for b, t in calls:
+        if t.get("f") in ITER_FNS:
+            res.setdefault(b, {"closures": [], "loop": False, "adaptors": []})
+    for b, t in calls:
+        f = t.get("f") or ""
+        if f in ITER_FNS or not t["a"] or not f.startswith("core::iter::"):
+            continue
+        og = origin(t["a"][0])
+        if not og:
+            continue
+        cl = closure_args(g, t)
+        for s_ in og:
+            r = res.setdefault(s_, {"closures": [], "loop": False, "adaptors": []})
+            r["closures"] += cl
+            r["adaptors"].append(f.split("::")[-1])
+            if f.endswith("Iterator::next"):
+                r["loop"] = True
+    return res
+
+
+ROLE_FIELDS = {
+    "amount_currently_spendable": "unspent_total",
+    "amount_awaiting_confirmation": "unconfirmed_total",
+    "amount_immature": "immature_total",
+    "amount_locked": "locked_total",
+    "amount_reverted": "reverted_total",
+    "amount_awaiting_finalization": "awaiting_finalization_total",
+}
+
+
+def accumulator_roles(ri, lit):
+    """Balance accumulators of retrieve_info, named by the WalletInfo figure each one feeds alone
+    (independent of the local variable names): {local: role}."""
+    fl = vf.get_flow(ri)
+    cands = set()
+    for l in range(1, len(ri.locals)):
+        if ri.locals[l]["ty"] != "u64" or not ri.locals[l].get("u"):
+            continue
+        seen, stack = set(), list(fl.deps[l])
+        while stack:
+            x = stack.pop()
+            if x in seen:
+                continue
+            seen.add(x)
+            stack.extend(fl.deps[x])
+        if l in seen:
+            cands.add(l)
+
+    def deps_in(o):
+        p = vf.op_place(o)
+        if p is None:
+            return set()
+        seen, stack, res = set(), [p[0]], set()
+        while stack:
+            l = stack.pop()
+            if l in seen:
+                continue
+            seen.add(l)
+            if l in cands:
+                res.add(l)
+                continue
+            stack.extend(fl.deps[l])
+        return res
+
+    roles, problems = {}, []
+    for fld, role in sorted(ROLE_FIELDS.items()):
+        got = deps_in(vf.literal_field(lit, fld))
+        if len(got) != 1:
+            problems.append("WalletInfo.%s is fed by %d accumulators (expected exactly one)" % (fld, len(got)))
+            continue
+        l = next(iter(got))
+        if l in roles:
+            problems.append("WalletInfo.%s and another figure are fed by the same accumulator" % fld)
+            continue
+        roles[l] = role
+    return roles, problems, deps_in
+
+
 def closure_true_requires(g, x, db, allow_none=False):
     """In closure g every path that may return true takes the equal-edge of comparison x
     (or, with allow_none, is on the None arm of an Option test: 'filter only if an account is given')."""
@@ -95,6 +207,16 @@ def run(ctx):
                 detail.append((pp.short(g.id).split("::")[-1], x.site().split(":")[-1], ok))
                 if not ok and kind == "account":
                     held = False
+        # per iter site: one of the closures attached to *that* iterator chain restricts to the account,
+        # or the records end in a loop of the function that compares the account itself
+        own_cmp = any(g.id == f.id or g.dk != "Closure" for g, _x in cmps)
+        good_closures = {g.id for g, x in cmps if g.dk == "Closure" and closure_true_requires(g, x, db, allow_none=(kind == "account-if-given" or fid == UPD + "apply_advanced_tx_list_filtering"))}
+        for g in [f] + [db.fns[k] for k in db.closures_of(fid)]:
+            for sb, ch in sorted(iter_chains(g).items()):
+                site_ok = bool(set(ch["closures"]) & good_closures) or (ch["loop"] and any(gg.id == g.id for gg, _x in cmps))
+                detail.append(("site", c.site_of(g, sb).split(":")[-1], ch["adaptors"][:4], site_ok))
+                if not site_ok:
+                    held = False
         # retrieve_txs / retrieve_outputs filter only when an account is given: the comparison must exist
         run.instance(R1, {"fn": pp.short(fid), "kind": kind, "iter_sites": n_sites, "account_comparisons": len(cmps), "closures": detail}, held=held)
         if not held:
@@ -129,8 +251,8 @@ def run(ctx):
     }
     if ri:
         nx = [b for b, t in cfg.find_calls(ri, "core::iter::traits::iterator::Iterator::next")]
-        names = ri.var_names()
-        accs = {l: n for l, n in names.items() if n.endswith("_total")}
+        wl = vf.struct_literals(ri, c.LW + "types::WalletInfo")
+        accs, role_problems, _d = accumulator_roles(ri, wl[0][1]) if len(wl) == 1 else ({}, ["WalletInfo literal not found"], None)
         if len(nx) != 1 or len(accs) < 6:
             run.error("C04.R2: loop / accumulators not found in retrieve_info (%d loops, %d accumulators)" % (len(nx), len(accs)))
         else:
@@ -187,25 +309,12 @@ def run(ctx):
         if len(lits) != 1:
             run.error("C04.R3: WalletInfo literal not found")
         else:
-            fl = vf.get_flow(ri)
-            names = ri.var_names()
-            accs = {l: n for l, n in names.items() if n.endswith("_total")}
+            accs, role_problems, deps_in = accumulator_roles(ri, lits[0][1])
+            for pr in role_problems:
+                run.finding(Finding(R3, ri.id, pr, site=ri.loc()))
 
             def acc_deps(o):
-                p = vf.op_place(o)
-                if p is None:
-                    return set()
-                seen, stack, res = set(), [p[0]], set()
-                while stack:
-                    l = stack.pop()
-                    if l in seen:
-                        continue
-                    seen.add(l)
-                    if l in accs:
-                        res.add(accs[l])
-                        continue
-                    stack.extend(fl.deps[l])
-                return res
+                return {accs.get(l, "local _%d" % l) for l in deps_in(o)}
 
             EXP = {
                 "total": {"unspent_total", "unconfirmed_total", "immature_total"},
